@@ -1,0 +1,11 @@
+//go:build verif
+
+package sourcerunner
+
+import "reduction.dev/reduction/proto/workerpb"
+
+// VerifRouteC05 routes one event by key through the operator cluster that HandleDeploy built from the deploy
+// request (verification harness only; call after HandleDeploy, with the watermark ticker silenced).
+func (r *SourceRunner) VerifRouteC05(key []byte, event *workerpb.Event) {
+	r.operators.routeEvent(key, event)
+}
